@@ -19,7 +19,7 @@ import (
 
 func init() { registerExtractor("auditoverrides", extractAuditOverrides) }
 
-func interfaceDecls(f *ast.File) map[string]*ast.InterfaceType {
+func c26InterfaceDecls(f *ast.File) map[string]*ast.InterfaceType {
 	out := map[string]*ast.InterfaceType{}
 	for _, d := range f.Decls {
 		if gd, ok := d.(*ast.GenDecl); ok {
@@ -35,7 +35,7 @@ func interfaceDecls(f *ast.File) map[string]*ast.InterfaceType {
 	return out
 }
 
-func ifaceMethods(it *ast.InterfaceType) ([]string, []ast.Expr, error) {
+func c26IfaceMethods(it *ast.InterfaceType) ([]string, []ast.Expr, error) {
 	var ms []string
 	var embedded []ast.Expr
 	for _, m := range it.Methods.List {
@@ -53,7 +53,7 @@ func ifaceMethods(it *ast.InterfaceType) ([]string, []ast.Expr, error) {
 	return ms, embedded, nil
 }
 
-type ovFact struct {
+type c26OvFact struct {
 	Method   string
 	Op       string // auditlog.OpXxx constant name
 	Shape    string // "run" | "explicit"
@@ -62,8 +62,8 @@ type ovFact struct {
 	Inner    string // the method called on m.Next
 }
 
-// isLogCall recognises m.log(ctx, auditlog.OpX, auditlog.Phase<P>, resource, err, status, dur).
-func isLogCall(x *ExtractCtx, s ast.Stmt) (op, phase, errArg string, ok bool) {
+// c26IsLogCall recognises m.log(ctx, auditlog.OpX, auditlog.Phase<P>, resource, err, status, dur).
+func c26IsLogCall(x *ExtractCtx, s ast.Stmt) (op, phase, errArg string, ok bool) {
 	es, isExpr := s.(*ast.ExprStmt)
 	if !isExpr {
 		return
@@ -76,7 +76,7 @@ func isLogCall(x *ExtractCtx, s ast.Stmt) (op, phase, errArg string, ok bool) {
 }
 
 // nextCall finds the single call m.Next.<X>(...) in a node.
-func nextCalls(x *ExtractCtx, n ast.Node) []string {
+func c26NextCalls(x *ExtractCtx, n ast.Node) []string {
 	var out []string
 	ast.Inspect(n, func(n ast.Node) bool {
 		if c, ok := n.(*ast.CallExpr); ok {
@@ -94,13 +94,13 @@ func extractAuditOverrides(x *ExtractCtx) error {
 	if err != nil {
 		return err
 	}
-	decls := interfaceDecls(stF)
+	decls := c26InterfaceDecls(stF)
 	st, ok := decls["Storage"]
 	if !ok {
 		return fmt.Errorf("type Storage interface not found")
 	}
 	x.Note("interface Storage", st)
-	own, embedded, err := ifaceMethods(st)
+	own, embedded, err := c26IfaceMethods(st)
 	if err != nil {
 		return err
 	}
@@ -113,7 +113,7 @@ func extractAuditOverrides(x *ExtractCtx) error {
 			if !ok {
 				return fmt.Errorf("embedded interface %s not declared in storage.go", t.Name)
 			}
-			ms, emb2, err := ifaceMethods(it)
+			ms, emb2, err := c26IfaceMethods(it)
 			if err != nil || len(emb2) != 0 {
 				return fmt.Errorf("interface %s: nested embedding / unsupported element", t.Name)
 			}
@@ -127,11 +127,11 @@ func extractAuditOverrides(x *ExtractCtx) error {
 			if err != nil {
 				return err
 			}
-			it, ok := interfaceDecls(lf)["Manager"]
+			it, ok := c26InterfaceDecls(lf)["Manager"]
 			if !ok {
 				return fmt.Errorf("lifecycle.Manager not found")
 			}
-			ms, emb2, err := ifaceMethods(it)
+			ms, emb2, err := c26IfaceMethods(it)
 			if err != nil || len(emb2) != 0 {
 				return fmt.Errorf("lifecycle.Manager: unsupported shape")
 			}
@@ -161,9 +161,9 @@ func extractAuditOverrides(x *ExtractCtx) error {
 		b := run.Body.List
 		// start := time.Now(); m.log(.. op, PhaseStart ..); err := fn(ctx); m.log(.. op, PhaseComplete, resource, err ..); return err
 		if len(b) == 5 {
-			op1, ph1, _, ok1 := isLogCall(x, b[1])
+			op1, ph1, _, ok1 := c26IsLogCall(x, b[1])
 			a, okA := b[2].(*ast.AssignStmt)
-			op2, ph2, e2, ok2 := isLogCall(x, b[3])
+			op2, ph2, e2, ok2 := c26IsLogCall(x, b[3])
 			r, okR := b[4].(*ast.ReturnStmt)
 			if ok1 && ok2 && okA && okR && op1 == "op" && op2 == "op" && ph1 == "auditlog.PhaseStart" && ph2 == "auditlog.PhaseComplete" &&
 				x.Src(a) == "err := fn(ctx)" && e2 == "err" && len(r.Results) == 1 && x.Src(r.Results[0]) == "err" &&
@@ -177,7 +177,7 @@ func extractAuditOverrides(x *ExtractCtx) error {
 	}
 
 	// ---- the overrides
-	var facts []ovFact
+	var facts []c26OvFact
 	var otherMethods []string
 	for _, d := range auF.Decls {
 		fd, ok := d.(*ast.FuncDecl)
@@ -197,8 +197,8 @@ func extractAuditOverrides(x *ExtractCtx) error {
 			continue
 		}
 		x.Note("override "+name, fd)
-		fact := ovFact{Method: name}
-		nexts := nextCalls(x, fd.Body)
+		fact := c26OvFact{Method: name}
+		nexts := c26NextCalls(x, fd.Body)
 		if len(nexts) != 1 {
 			return fmt.Errorf("%s: expected exactly one call on m.Next, found %v", name, nexts)
 		}
@@ -216,7 +216,7 @@ func extractAuditOverrides(x *ExtractCtx) error {
 				return fmt.Errorf("%s: m.run with %d arguments", name, len(runCall.Args))
 			}
 			fl, ok := runCall.Args[3].(*ast.FuncLit)
-			if !ok || len(nextCalls(x, fl)) != 1 {
+			if !ok || len(c26NextCalls(x, fl)) != 1 {
 				return fmt.Errorf("%s: the inner call is not inside the function passed to m.run", name)
 			}
 			// the closure must return the inner call's error
@@ -247,7 +247,7 @@ func extractAuditOverrides(x *ExtractCtx) error {
 		fact.Shape = "explicit"
 		seenNext := false
 		for _, s := range fd.Body.List {
-			if op, ph, errArg, ok := isLogCall(x, s); ok {
+			if op, ph, errArg, ok := c26IsLogCall(x, s); ok {
 				if fact.Op == "" {
 					fact.Op = op
 				} else if fact.Op != op {
@@ -267,7 +267,7 @@ func extractAuditOverrides(x *ExtractCtx) error {
 				}
 				continue
 			}
-			if len(nextCalls(x, s)) == 1 {
+			if len(c26NextCalls(x, s)) == 1 {
 				a, ok := s.(*ast.AssignStmt)
 				if !ok || x.Src(a.Lhs[len(a.Lhs)-1]) != "err" {
 					return fmt.Errorf("%s: the inner call's error is not assigned to err", name)
